@@ -5,7 +5,7 @@ cd "$(dirname "$0")/../lean"
 /venv/bin/python ../harness/translate.py >/dev/null
 lake build VModel vdriver
 lake build VProofs
-for f in VProofs/Props/C*.lean; do
+for f in VProofs/Props/*.lean; do
   m=$(basename "$f" .lean)
   lake build "VProofs.Props.$m" || echo "setup: VProofs.Props.$m did not build (reported by its check)"
 done
